@@ -138,7 +138,9 @@ func (p *Prog) inlineOverlay() (map[string][]byte, []string) {
 		changed := false
 		for i, j := range js {
 			off := p.Fset.Position(j.call.Pos()).Offset
-			if p.inlineOne(fset, file, off, j, fmt.Sprintf("_i%d", i+1)) {
+			inlineSeq++
+			_ = i
+			if p.inlineOne(fset, file, off, j, fmt.Sprintf("_i%d", inlineSeq)) {
 				changed = true
 				inlinedAll[j.callee]++
 				notes = append(notes, fmt.Sprintf("inlined helper %s into %s at %s", j.callee.Name, j.caller.Name, p.Pos(j.call)))
@@ -309,6 +311,11 @@ func isPureExpr(e ast.Expr) bool {
 		return isPureExpr(x.X) && isPureExpr(x.Index)
 	case *ast.StarExpr:
 		return isPureExpr(x.X)
+	case *ast.UnaryExpr:
+		// &x of a pure operand denotes the same object every time it is evaluated
+		if x.Op == token.AND {
+			return isPureExpr(x.X)
+		}
 	}
 	return false
 }
@@ -324,6 +331,10 @@ func (p *Prog) inlineOne(fset *token.FileSet, file *ast.File, off int, j inlineJ
 }
 
 var inlineWhy string
+
+// inlineSeq numbers inlined call sites across all rounds of one process so that
+// generated labels and locals never collide.
+var inlineSeq int
 
 func (p *Prog) inlineOneImpl(fset *token.FileSet, file *ast.File, off int, j inlineJob, suffix string) bool {
 	inlineWhy = "unsupported call form"
@@ -363,10 +374,11 @@ func (p *Prog) inlineOneImpl(fset *token.FileSet, file *ast.File, off int, j inl
 					if spliceStmt(file, as, []ast.Stmt{s1, s2}) {
 						return p.inlineOneImpl(fset, file, off, j, suffix)
 					}
+					return false
 				}
 			}
 		}
-		return false
+		// other positions of a short-circuit operand are handled further down
 	}
 	// callee facts
 	sig := callee.Obj.Type().(*types.Signature)
@@ -375,7 +387,7 @@ func (p *Prog) inlineOneImpl(fset *token.FileSet, file *ast.File, off int, j inl
 	//   S(... H(args) ...)  ->  tmp := H(args); S(... tmp ...)
 	// provided nothing with side effects is evaluated before it within S.
 	switch parent.(type) {
-	case *ast.ExprStmt, *ast.GoStmt, *ast.ReturnStmt, *ast.AssignStmt:
+	case *ast.ExprStmt, *ast.GoStmt, *ast.DeferStmt, *ast.ReturnStmt, *ast.AssignStmt:
 		if as, isAs := parent.(*ast.AssignStmt); isAs && (len(as.Rhs) != 1 || ast.Unparen(as.Rhs[0]) != ast.Expr(call)) {
 			// H is one of several right-hand sides: hoist
 		} else if rs, isRet := parent.(*ast.ReturnStmt); isRet && len(rs.Results) != 1 {
@@ -403,6 +415,31 @@ func (p *Prog) inlineOneImpl(fset *token.FileSet, file *ast.File, off int, j inl
 		okHoist := stmt != nil
 		switch st := stmt.(type) {
 		case *ast.ExprStmt, *ast.AssignStmt, *ast.ReturnStmt, *ast.SendStmt:
+		case *ast.RangeStmt:
+			// the range expression is evaluated once, before the loop
+			in := false
+			ast.Inspect(st.X, func(n ast.Node) bool {
+				if n == ast.Node(call) {
+					in = true
+				}
+				return true
+			})
+			if !in {
+				okHoist = false
+			}
+		case *ast.SwitchStmt:
+			in := false
+			if st.Tag != nil && st.Init == nil {
+				ast.Inspect(st.Tag, func(n ast.Node) bool {
+					if n == ast.Node(call) {
+						in = true
+					}
+					return true
+				})
+			}
+			if !in {
+				okHoist = false
+			}
 		case *ast.IfStmt:
 			// only from the condition of an if without init
 			in := false
@@ -470,6 +507,53 @@ func (p *Prog) inlineOneImpl(fset *token.FileSet, file *ast.File, off int, j inl
 				}
 			}
 		}
+		// if A && H() && B { ... }: evaluate the chain step by step into a
+		// temporary, preserving short-circuit order, then retry
+		if ifs, ok := stmt.(*ast.IfStmt); ok && ifs.Init == nil && stmt != nil {
+			var flat func(e ast.Expr, op token.Token) []ast.Expr
+			flat = func(e ast.Expr, op token.Token) []ast.Expr {
+				if be, ok := ast.Unparen(e).(*ast.BinaryExpr); ok && be.Op == op {
+					return append(flat(be.X, op), flat(be.Y, op)...)
+				}
+				return []ast.Expr{e}
+			}
+			if be, ok := ast.Unparen(ifs.Cond).(*ast.BinaryExpr); ok && (be.Op == token.LAND || be.Op == token.LOR) {
+				ops := flat(ifs.Cond, be.Op)
+				holds := false
+				for _, o := range ops {
+					ast.Inspect(o, func(n ast.Node) bool {
+						if n == ast.Node(call) {
+							holds = true
+						}
+						return true
+					})
+				}
+				if holds && len(ops) >= 2 {
+					tmp := "cond" + suffix
+					var seq []ast.Stmt
+					seq = append(seq, &ast.AssignStmt{Lhs: []ast.Expr{ast.NewIdent(tmp)}, Tok: token.DEFINE, Rhs: []ast.Expr{ops[0]}})
+					for _, o := range ops[1:] {
+						var guard ast.Expr = ast.NewIdent(tmp)
+						if be.Op == token.LOR {
+							guard = &ast.UnaryExpr{Op: token.NOT, X: ast.NewIdent(tmp)}
+						}
+						seq = append(seq, &ast.IfStmt{Cond: guard, Body: &ast.BlockStmt{List: []ast.Stmt{
+							&ast.AssignStmt{Lhs: []ast.Expr{ast.NewIdent(tmp)}, Tok: token.ASSIGN, Rhs: []ast.Expr{o}},
+						}}})
+					}
+					ifs.Cond = ast.NewIdent(tmp)
+					if insertBefore(file, stmt, seq) {
+						r := p.inlineOneImpl(fset, file, off, j, suffix)
+						if !r {
+							inlineWhy = "after && normalisation: " + inlineWhy
+						}
+						return r
+					}
+					inlineWhy = "&& normalisation: statement is not in a statement list"
+					return false
+				}
+			}
+		}
 		inlineWhy = "call is nested in an expression that cannot be hoisted safely"
 		return false
 	}
@@ -482,6 +566,58 @@ direct:
 		}
 		return true
 	})
+	// Deferred calls of the simple kind (mu.Unlock(), wg.Done(), close(ch), with
+	// pure operands), written as top-level statements of the helper before any
+	// return, are run explicitly after the inlined body instead.
+	simpleDefers := false
+	if hasDefer {
+		simpleDefers = true
+		firstReturn := token.Pos(1 << 40)
+		walkNoLit(callee.Body, func(n ast.Node) bool {
+			if rs, ok := n.(*ast.ReturnStmt); ok && rs.Pos() < firstReturn {
+				firstReturn = rs.Pos()
+			}
+			return true
+		})
+		top := map[ast.Stmt]bool{}
+		for _, st := range callee.Body.List {
+			top[st] = true
+		}
+		walkNoLit(callee.Body, func(n ast.Node) bool {
+			ds, ok := n.(*ast.DeferStmt)
+			if !ok {
+				return true
+			}
+			if !top[ds] || ds.Pos() > firstReturn {
+				simpleDefers = false
+			}
+			if _, isLit := ds.Call.Fun.(*ast.FuncLit); isLit {
+				simpleDefers = false
+			}
+			if se, ok := ds.Call.Fun.(*ast.SelectorExpr); ok && !isPureExpr(se.X) {
+				simpleDefers = false
+			}
+			for _, a := range ds.Call.Args {
+				if !isPureExpr(a) {
+					simpleDefers = false
+				}
+			}
+			return true
+		})
+		// panics inside the helper would have run the deferred call too; only
+		// accept helpers without explicit panic calls
+		walkNoLit(callee.Body, func(n ast.Node) bool {
+			if call, ok := n.(*ast.CallExpr); ok {
+				if id, ok := call.Fun.(*ast.Ident); ok && id.Name == "panic" {
+					simpleDefers = false
+				}
+			}
+			return true
+		})
+		if simpleDefers {
+			hasDefer = false
+		}
+	}
 	// copy the body
 	identMap := map[*ast.Ident]*ast.Ident{}
 	body := deepCopy(callee.Body, identMap).(*ast.BlockStmt)
@@ -775,9 +911,38 @@ direct:
 		}, nil).(*ast.BlockStmt)
 		return ok
 	}
+	// take the simple defers out of the (renamed) body; they run after it
+	var deferred []ast.Stmt
+	_, parentIsGo := parent.(*ast.GoStmt)
+	_, parentIsDefer := parent.(*ast.DeferStmt)
+	if simpleDefers && !parentIsGo && !parentIsDefer {
+		var kept []ast.Stmt
+		for _, st := range body.List {
+			if ds, ok := st.(*ast.DeferStmt); ok {
+				deferred = append([]ast.Stmt{&ast.ExprStmt{X: ds.Call}}, deferred...)
+				continue
+			}
+			kept = append(kept, st)
+		}
+		body.List = kept
+	}
 	wrap := func() []ast.Stmt {
 		out := append([]ast.Stmt{}, pre...)
 		out = append(out, resultDecls...)
+		defer func() {}()
+		if len(deferred) > 0 {
+			// every return must leave through the end of the block so that the
+			// deferred calls run: force the labelled form
+			var inner []ast.Stmt
+			if earlyReturn {
+				inner = []ast.Stmt{&ast.LabeledStmt{Label: ast.NewIdent(label), Stmt: &ast.SwitchStmt{Body: &ast.BlockStmt{List: []ast.Stmt{&ast.CaseClause{Body: body.List}}}}}}
+			} else {
+				inner = body.List
+			}
+			out = append(out, inner...)
+			out = append(out, deferred...)
+			return out
+		}
 		if earlyReturn {
 			out = append(out, &ast.LabeledStmt{Label: ast.NewIdent(label), Stmt: &ast.SwitchStmt{Body: &ast.BlockStmt{List: []ast.Stmt{&ast.CaseClause{Body: body.List}}}}})
 		} else {
@@ -833,9 +998,51 @@ direct:
 			return true
 		}
 		return false
+	case *ast.DeferStmt:
+		// defer H(args)  ->  bindings evaluated now; defer func() { body }()
+		if nres > 0 {
+			return false
+		}
+		dlit := &ast.FuncLit{Type: &ast.FuncType{Params: &ast.FieldList{}}, Body: body}
+		dout := append([]ast.Stmt{}, pre...)
+		dout = append(dout, &ast.DeferStmt{Call: &ast.CallExpr{Fun: dlit}})
+		// the statements must stay in the enclosing function body (a block would
+		// end the deferral scope only lexically, which is fine for defer)
+		if replaceStmt(st, dout) {
+			addImports()
+			return true
+		}
+		return false
 	case *ast.ReturnStmt:
 		// return H(args)  (tail call with identical result arity)
 		if hasDefer || len(st.Results) != 1 {
+			return false
+		}
+		if simpleDefers {
+			// r1, r2 := H(args); return r1, r2   — then inline the assignment
+			var lhs, rets []ast.Expr
+			for i := 0; i < nres; i++ {
+				nm := fmt.Sprintf("ret%d%s", i, suffix)
+				lhs = append(lhs, ast.NewIdent(nm))
+				rets = append(rets, ast.NewIdent(nm))
+			}
+			if nres == 0 {
+				return false
+			}
+			var decls []ast.Stmt
+			for i := 0; i < nres; i++ {
+				ts := p.typeText(j.caller, sig.Results().At(i).Type())
+				te, err := parser.ParseExpr(ts)
+				if ts == "" || err != nil {
+					return false
+				}
+				decls = append(decls, &ast.DeclStmt{Decl: &ast.GenDecl{Tok: token.VAR, Specs: []ast.Spec{&ast.ValueSpec{Names: []*ast.Ident{ast.NewIdent(fmt.Sprintf("ret%d%s", i, suffix))}, Type: te}}}})
+			}
+			assign := &ast.AssignStmt{Lhs: lhs, Tok: token.ASSIGN, Rhs: []ast.Expr{call}}
+			repl := append(decls, assign, &ast.ReturnStmt{Results: rets})
+			if replaceStmt(st, repl) {
+				return p.inlineOneImpl(fset, file, off, j, suffix)
+			}
 			return false
 		}
 		csig, _ := j.caller.Pkg.TypesInfo.TypeOf(j.caller.Type).(*types.Signature)
@@ -869,9 +1076,11 @@ direct:
 		return false
 	case *ast.AssignStmt:
 		if hasDefer || len(st.Rhs) != 1 || ast.Unparen(st.Rhs[0]) != ast.Expr(call) {
+			inlineWhy = "assignment form: step 1"
 			return false
 		}
 		if len(st.Lhs) != nres {
+			inlineWhy = "assignment form: step 2"
 			return false
 		}
 		// where does the assignment live: plain statement, or init of an if
@@ -884,6 +1093,7 @@ direct:
 			// the new variables need declarations with explicit types
 			orig := p.origAssign(j)
 			if orig == nil {
+				inlineWhy = "assignment form: step 3"
 				return false
 			}
 			oinfo := j.caller.Pkg.TypesInfo
@@ -895,10 +1105,12 @@ direct:
 				if obj := oinfo.Defs[id]; obj != nil {
 					ts := p.typeText(j.caller, obj.Type())
 					if ts == "" {
+						inlineWhy = "assignment form: step 4"
 						return false
 					}
 					te, err := parser.ParseExpr(ts)
 					if err != nil {
+						inlineWhy = "assignment form: step 5"
 						return false
 					}
 					decls = append(decls, &ast.DeclStmt{Decl: &ast.GenDecl{Tok: token.VAR, Specs: []ast.Spec{&ast.ValueSpec{Names: []*ast.Ident{ast.NewIdent(id.Name)}, Type: te}}}})
@@ -906,9 +1118,11 @@ direct:
 				}
 			}
 		} else if st.Tok != token.ASSIGN {
+			inlineWhy = "assignment form: step 6"
 			return false
 		}
 		if !rewriteReturns(st.Lhs, st.Tok == token.DEFINE) {
+			inlineWhy = "assignment form: step 7"
 			return false
 		}
 		inl := append(decls, wrap()...)
@@ -920,6 +1134,7 @@ direct:
 				addImports()
 				return true
 			}
+			inlineWhy = "assignment form: step 8"
 			return false
 		}
 		if _, ok := holder.(*ast.BlockStmt); ok {
@@ -929,6 +1144,7 @@ direct:
 				addImports()
 				return true
 			}
+			inlineWhy = "assignment form: step 9"
 			return false
 		}
 		switch holder.(type) {
@@ -937,10 +1153,13 @@ direct:
 				addImports()
 				return true
 			}
+			inlineWhy = "assignment form: step 10"
 			return false
 		}
+		inlineWhy = "assignment form: step 11"
 		return false
 	}
+	inlineWhy = "assignment form: step 12"
 	return false
 }
 
